@@ -8,7 +8,7 @@ use crate::util::Ctx;
 pub fn gen(ctx: &mut Ctx) {
     let sites = sites();
     // corpus: register, authenticate without / with an allow list, unknown id only, empty list
-    for kind in [Kind::RefFull, Kind::Map, Kind::Slot] {
+    for kind in [Kind::RefFull, Kind::Map, Kind::Slot, Kind::RefFullEmptyOk] {
         let w = World { kind, counter_on: true, id_len: 16, hm: Hm::None, preload: vec![] };
         let r = simple_reg(ctx, "https://www.example.com", Some("example.com"));
         let a0 = simple_auth(ctx, "https://www.example.com", Some("example.com"));
@@ -24,6 +24,16 @@ pub fn gen(ctx: &mut Ctx) {
         run_ccase(ctx, "C03", &w, &[cstep(COp::Auth(before)), cstep(COp::Reg(r)),
             cstep(COp::Auth(a0)), cstep(COp::Auth(a1)), cstep(COp::Auth(a2)), cstep(COp::Auth(a3)), cstep(COp::Auth(a4)), cstep(COp::Auth(a5)), cstep(COp::Auth(a6)), cstep(COp::Auth(a7))]);
         ctx.stat("c03.corpus");
+    }
+    // a credential registered at one site named in the allow list of a ceremony at another site
+    for kind in [Kind::RefFull, Kind::Slot, Kind::Map, Kind::RefFullEmptyOk, Kind::SlotArcMutex, Kind::MapRwLock] {
+        let w = World { kind, counter_on: true, id_len: 16, hm: Hm::None, preload: vec![] };
+        let r = simple_reg(ctx, "https://www.example.com", Some("example.com"));
+        let mut a1 = simple_auth(ctx, "https://accounts.example.org", None); a1.allow_refs = vec![0];
+        let mut a2 = simple_auth(ctx, "https://accounts.example.org", None); a2.allow_refs = vec![0]; a2.allow = Some(vec![vec![9, 9]]);
+        let mut a3 = simple_auth(ctx, "https://www.example.com", Some("example.com")); a3.allow_refs = vec![0];
+        run_ccase(ctx, "C03", &w, &[cstep(COp::Reg(r)), cstep(COp::Auth(a1)), cstep(COp::Auth(a2)), cstep(COp::Auth(a3))]);
+        ctx.stat("c03.corpus.credential_of_another_site_listed");
     }
     // stored keys whose private scalar was written without its leading zero octet still sign under their public key
     for kind in [Kind::RefFull, Kind::Map] {
